@@ -622,6 +622,11 @@ func handleInputStream(s *Session, handler Handler) (err error) {
 		id:          id,
 	}
 	if err := handler.HandleXMPP(rw, &start); err != nil {
+		// An io.EOF from the handler (eg. because the element was empty) must not
+		// be mistaken for the end of the input stream.
+		if err == io.EOF {
+			err = io.ErrUnexpectedEOF
+		}
 		return err
 	}
 
